@@ -30,7 +30,8 @@ class Target:
     # -- the callable handed to the samplers
     def __call__(self, theta):
         th = np.array(theta, dtype=float, copy=True).reshape(-1)
-        v = self.logpdf(th)
+        # like any real log-density, a non-finite argument gives a non-finite (NaN) value
+        v = self.logpdf(th) if np.all(np.isfinite(th)) else float("nan")
         self._note("post", th, v)
         return v
 
